@@ -107,6 +107,15 @@ func main() {
 				}
 			}
 			return "", false
+		case *types.Const:
+			// pkg.Name=new: a package-level constant
+			if x.Pkg() != nil && x.Parent() == x.Pkg().Scope() {
+				if nn, ok := want[x.Pkg().Name()+"."+x.Name()]; ok {
+					used[x.Pkg().Name()+"."+x.Name()] = true
+					return nn, true
+				}
+			}
+			return "", false
 		case *types.Var:
 			if !x.IsField() && x.Pkg() != nil && x.Parent() == x.Pkg().Scope() {
 				if nn, ok := want[x.Pkg().Name()+"."+x.Name()]; ok {
